@@ -358,7 +358,7 @@ def main(pid, tier, seed=0, only_canaries=False):
         return EXIT_VIOLATION
     if harness_err:
         for h in harness_err[:10]:
-            print("HARNESS-ERROR:", h[:3000])
+            print("HARNESS-ERROR:", h[:700])
         return EXIT_HARNESS
     return EXIT_OK
 
